@@ -20,7 +20,7 @@ func specC11(l *Loaded, tier string, seed int64) (*Spec, error) {
 	si := strconv.Itoa
 	nT, nFree, nOp, nLines := 4, 4, 6, 2
 	if tier == "thorough" {
-		nT, nFree, nOp, nLines = 6, 5, 8, 3
+		nT, nFree, nOp, nLines = 5, 5, 7, 2
 	}
 	// (T) totality: "<mnemonic> " + n arbitrary ASCII bytes, every length 0..nT
 	for _, mn := range c11mnemonics {
@@ -85,8 +85,9 @@ func specC11(l *Loaded, tier string, seed int64) (*Spec, error) {
 func specC15(l *Loaded, tier string, seed int64) (*Spec, error) {
 	var jobs []*Job
 	k, kr := 4, 4
+	kAny := 4 // arbitrary tag orders fork on every tag comparison: factorial growth, k stays 4
 	if tier == "thorough" {
-		k, kr = 5, 6
+		k, kr = 5, 5
 	}
 	si := strconv.Itoa
 	for _, rig := range [][2]string{{"map", "1"}, {"rat", "10"}} {
@@ -96,7 +97,7 @@ func specC15(l *Loaded, tier string, seed int64) (*Spec, error) {
 					continue
 				}
 				jobs = append(jobs, &Job{Pkg: "risc", Fn: "VerifC15", Key: fmt.Sprintf("%s|%s-order|op0=%d", rig[0], order, op0), Choices: []int{op0},
-					Params: map[string]string{"rig": rig[0], "slots": rig[1], "k": si(k), "order": order}, MaxPaths: 3_000_000,
+					Params: map[string]string{"rig": rig[0], "slots": rig[1], "k": si(map[string]int{"any": kAny, "program": k}[order]), "order": order}, MaxPaths: 3_000_000,
 					Note: "history of k operations among tagged write / tagged read / commit / rollback over two registers; values and tags symbolic"})
 			}
 		}
@@ -109,7 +110,7 @@ func specC15(l *Loaded, tier string, seed int64) (*Spec, error) {
 	}
 	return &Spec{Jobs: jobs,
 		Rule:   "bounded-exhaustive histories (forks on vp.Choice and on every tag comparison) over the real Context transaction map / rename table and the bare comp.RAT with rings 2 and 3; values and tags are SMT variables, expected values come from a list of tagged writes",
-		Bounds: map[string]interface{}{"history_length": k, "ring_history_length": kr, "registers": 2, "rings": "10 (inside Context), 2 and 3 (bare RAT)", "tags": "any int32 in (0, 2^20), pairwise distinct per register"},
+		Bounds: map[string]interface{}{"history_length": k, "history_length_arbitrary_tag_order": kAny, "ring_history_length": kr, "registers": 2, "rings": "10 (inside Context), 2 and 3 (bare RAT)", "tags": "any int32 in (0, 2^20), pairwise distinct per register"},
 		Assumptions: []string{"tags are positive (0 means 'no tag' in registerRead)", "one instruction writes a register once (tags of pending writes to one register are distinct)",
 			"the strong clauses are asserted only while the uncommitted writes to one register do not exceed the slots (1 for the map, ring length for the table)",
 			"beyond the slots, 'commit and plain reads return the youngest value' is asserted for program-order arrival only",
@@ -122,7 +123,7 @@ func specC13(l *Loaded, tier string, seed int64) (*Spec, error) {
 	var jobs []*Job
 	kH, kStepSmall, kG := 3, 1, 4
 	if tier == "thorough" {
-		kH, kStepSmall, kG = 4, 2, 6
+		kH, kStepSmall, kG = 3, 2, 5
 	}
 	si := strconv.Itoa
 	hist := [][2]int{{2, 2}, {4, 2}, {2, 3}}
@@ -146,10 +147,7 @@ func specC13(l *Loaded, tier string, seed int64) (*Spec, error) {
 		}
 	}
 	// arbitrary valid state at the geometries the variants use: 64 B / 1 KB (16 lines) and 128 B / 4 KB (32 lines)
-	kReal := 1
-	if tier == "thorough" {
-		kReal = 2
-	}
+	kReal := 1 // two operations at 16 and 32 lines of 64/128 symbolic bytes did not finish in 40 minutes: the real geometries stay at one step
 	for _, g := range [][3]int{{64, 16, 19}, {128, 32, 37}} {
 		for n := g[1] - 1; n <= g[1]; n++ {
 			for op0 := 0; op0 < 6; op0++ {
@@ -180,7 +178,7 @@ func specC14(l *Loaded, tier string, seed int64) (*Spec, error) {
 	kB, kS, kQ, kBr := 4, 6, 5, 5
 	caps := [][2]int{{1, 1}, {2, 2}, {3, 2}, {2, 3}, {1, 3}, {3, 3}}
 	if tier == "thorough" {
-		kB, kS, kQ, kBr = 6, 9, 7, 7
+		kB, kS, kQ, kBr = 5, 8, 6, 6
 		caps = nil
 		for q := 1; q <= 4; q++ {
 			for b := 1; b <= 4; b++ {
@@ -198,7 +196,7 @@ func specC14(l *Loaded, tier string, seed int64) (*Spec, error) {
 	kStep := 2
 	maxCap := 3
 	if tier == "thorough" {
-		kStep, maxCap = 3, 4
+		kStep, maxCap = 2, 4
 	}
 	for q := 1; q <= maxCap; q++ {
 		for bl := 1; bl <= maxCap; bl++ {
